@@ -4,14 +4,16 @@ a scratch worktree of /repo and private copies of the harness and sched crates (
 
   seeded_regress.py seeded [out.json]   every seeded/C??-? change: the quick check of the targeted property must exit 1
                                         (if it passes, the other checks listed in meta.json 'detected_by' are tried)
-  seeded_regress.py benign [out.json]   every seeded/benign/* refactoring: EVERY quick check must exit 0
+  seeded_regress.py benign [out.json] [prefix]   every seeded/benign/* refactoring (w* = round 1, x* = round 2): EVERY quick check must exit 0
 
 Scratch directory: /tmp/regress-<mode> (removed at the end, worktree included)."""
 import glob, json, os, shutil, subprocess, sys, time
 V = os.path.dirname(os.path.dirname(os.path.abspath(__file__)))
 MODE = sys.argv[1] if len(sys.argv) > 1 else 'seeded'
-ROOT = '/tmp/regress-' + MODE
+ROOT = '/tmp/regress-' + MODE + (('-' + sys.argv[3]) if len(sys.argv) > 3 else '')
 OUT = sys.argv[2] if len(sys.argv) > 2 else ROOT + '.json'
+# optional third argument: only directories whose name starts with this prefix (e.g. 'x' = second benign round)
+PREFIX = sys.argv[3] if len(sys.argv) > 3 else ''
 REPO = ROOT + '/repo'
 VD = ROOT + '/vdir'
 SCHED = ('C07', 'C08', 'C15', 'C16')
@@ -34,7 +36,7 @@ if os.path.exists(ROOT):
 os.makedirs(ROOT)
 rc, out = sh(['git', '-C', '/repo', 'worktree', 'add', '--detach', REPO, 'HEAD'])
 assert rc == 0, out
-for crate in ('harness', 'sched'):
+for crate in ('harness', 'sched', 'blackbox'):
     shutil.copytree(V + '/' + crate, ROOT + '/' + crate, ignore=shutil.ignore_patterns('target'))
     p = ROOT + '/' + crate + '/Cargo.toml'
     text = open(p).read().replace('path = "/repo"', 'path = "%s"' % REPO)
@@ -53,7 +55,19 @@ def run(cid):
     crate, binary = ('sched', 'seqio_verif_sched') if cid in SCHED else ('harness', 'seqio_verif')
     rc, out = sh(['timeout', '-k', '5', '900', '%s/%s/target/release/%s' % (ROOT, crate, binary), cid, 'quick'], timeout=1000)
     sigs = sorted(set(l.split('signature:')[1].strip() for l in out.splitlines() if 'signature:' in l))[:4]
+    if rc == 0 and cid in SCHED:
+        # the complementary real-thread pass of check.sh
+        if 'blackbox' not in BUILT_BB:
+            BUILT_BB['blackbox'] = build('blackbox')[0]
+        if BUILT_BB['blackbox'] == 0:
+            rc, out = sh(['timeout', '-k', '5', '900', '%s/blackbox/target/release/seqio_verif_blackbox' % ROOT, cid, 'quick'], timeout=1000)
+            sigs = sorted(set('real-threads: ' + l.split('signature:')[1].strip() for l in out.splitlines() if 'signature:' in l))[:4]
+        else:
+            rc, sigs = 2, ['blackbox build failed']
     return rc, sigs
+
+
+BUILT_BB = {}
 
 
 def restore():
@@ -63,13 +77,14 @@ def restore():
 
 results = []
 restore()
-for crate in ('harness', 'sched'):
+for crate in ('harness', 'sched', 'blackbox'):
     rc, out = build(crate)
     assert rc == 0, out[-3000:]
 if MODE == 'seeded':
     dirs = sorted(glob.glob(V + '/seeded/C??-?'))
 else:
-    dirs = sorted(glob.glob(V + '/seeded/benign/w*'))
+    dirs = sorted(glob.glob(V + '/seeded/benign/[wx]*'))
+dirs = [d for d in dirs if os.path.basename(d).startswith(PREFIX)]
 for d in dirs:
     name = os.path.basename(d)
     restore()
@@ -80,6 +95,7 @@ for d in dirs:
         continue
     t0 = time.time()
     built = {}
+    BUILT_BB.clear()
     def ensure_built(cid):
         crate = 'sched' if cid in SCHED else 'harness'
         if crate not in built:
